@@ -215,7 +215,11 @@ func TestC04(t *testing.T) {
 	// ... each matrix certificate is also linted through ONE certificate value that is overwritten with the next
 	// certificate's fields (a caller recycling its struct, or building certificates in place): what a lint run says
 	// depends on the fields, not on the address they live at
-	slot := new(zx509Cert)
+	type recycled struct {
+		c    engine.Case
+		want string
+	}
+	var walk []recycled
 	for _, b := range bases {
 		bs := baseStage(b)
 		for e := -1; e < len(gen.AllEKUs); e++ {
@@ -240,18 +244,31 @@ func TestC04(t *testing.T) {
 						}
 					}
 					noteNT(c, run, bs)
-					if pc, ok := gen.ParseCert(der); ok && run.RS != nil {
-						*slot = *pc
-						if got, want := engine.Digest(zlint.LintCertificateEx(slot, lint.GlobalRegistry())), engine.Digest(run.RS); got != want {
-							rec.Class("matrix_recycled_struct")
-							if rec.Report("c04", "recycled-struct", fmt.Sprintf("the certificate %v gets other verdicts (%s) when its fields are written into a certificate value that was linted before as another certificate than on a value of its own (%s)", c.Ops, got, want), c) {
-								t.Fatalf("c04 matrix %s %+v: verdicts depend on the address of the certificate value", b.Name, s)
-							}
-						}
+					if run.RS != nil {
+						walk = append(walk, recycled{c, engine.Digest(run.RS)})
 					}
 					if k%131 == 0 {
 						rec.Sample(sampleCase(c, map[string]interface{}{"statuses": statusCounts(engine.Verdicts(run.RS))}))
 					}
+				}
+			}
+		}
+	}
+	// the walk: nothing else is linted in between, so the certificate value goes from one scope straight to another
+	{
+		slot := new(zx509Cert)
+		g := lint.GlobalRegistry()
+		for _, w := range walk {
+			pc, ok := gen.ParseCert(w.c.DER)
+			if !ok {
+				continue
+			}
+			*slot = *pc
+			rec.Eval()
+			rec.Class("matrix_recycled_struct")
+			if got := engine.Digest(zlint.LintCertificateEx(slot, g)); got != w.want {
+				if rec.Report("c04", "recycled-struct", fmt.Sprintf("the certificate %v gets other verdicts (%s) when its fields are written into a certificate value that has just been linted as another certificate than on a value of its own (%s)", w.c.Ops, got, w.want), w.c) {
+					t.Fatalf("c04 matrix %s %v: verdicts depend on the address of the certificate value", w.c.Base, w.c.Ops)
 				}
 			}
 		}
